@@ -67,12 +67,17 @@ def rules(ctx: Ctx) -> None:
                         ok = isinstance(val, ast.List) and not val.elts
                         ctx.ob("R05.1", "stmt-list:init-empty", ok, loc(f.mod, n), f"`{u(st)}`: empty until evaluated", trivial=True)
                     elif f is ev:
-                        ok = False
-                        if isinstance(val, ast.Call):
-                            callees = prog.resolve_call(val, ev)
-                            is_splitter = split in callees or (isinstance(val.func, ast.Attribute) and val.func.attr.startswith("split"))
-                            arg_ok = len(val.args) == 1 and u(val.args[0]) in ("self._sql.strip()", "self._sql")
-                            ok = is_splitter and arg_ok
+                        # whatever reaches the store (directly, or through a local that the branches fill) is a splitter's answer for the input
+                        srcs = prog.value_sources(ev, val) if val is not None else []
+                        ok = bool(srcs)
+                        for v_ in srcs:
+                            if not isinstance(v_, ast.Call):
+                                ok = False
+                                continue
+                            callees = prog.resolve_call(v_, ev)
+                            is_splitter = split in callees or (isinstance(v_.func, ast.Attribute) and v_.func.attr.startswith("split"))
+                            arg_ok = len(v_.args) == 1 and u(v_.args[0]) in ("self._sql.strip()", "self._sql")
+                            ok = ok and is_splitter and arg_ok
                         ctx.ob("R05.1", "stmt-list:assigned-by-splitter", ok, loc(f.mod, n), f"`{u(st)[:70]}`: the statement list is exactly what a splitter returns for the stripped input")
                     else:
                         ctx.ob("R05.1", f"stmt-list:stored-elsewhere:{f.name}", False, loc(f.mod, n), f"`{u(st)[:70]}` re-assigns the statement list outside the evaluator")
@@ -99,7 +104,17 @@ def rules(ctx: Ctx) -> None:
         hl = k.func.value.id
         # the list of holders becomes _stmt_holders and is passed whole to the assembler
         star = [n for n in prog.walk_fn(ev) if isinstance(n, ast.Starred)]
-        assembled = any(isinstance(prog.parent(s), ast.Call) and "of" == getattr(prog.parent(s).func, "attr", "") and (u(s.value) == hl or _alias_of(prog, ev, s.value, hl)) for s in star)
+        def _is_holder_list(e: ast.AST) -> bool:
+            if u(e) == hl or _alias_of(prog, ev, e, hl):
+                return True
+            if is_self_attr(e):  # self.<attr> assigned from the list (possibly through a result variable)
+                for n_ in prog.walk_fn(ev):
+                    if isinstance(n_, ast.Assign) and any(is_self_attr(t_, e.attr) for t_ in n_.targets):
+                        if any(isinstance(v_, ast.Name) and v_.id == hl for v_ in prog.value_sources(ev, n_.value)) or any(isinstance(k_, ast.Name) and k_.id == hl for k_ in prog.influences(ev, n_.value)):
+                            return True
+            return False
+
+        assembled = any(isinstance(prog.parent(s), ast.Call) and "of" == getattr(prog.parent(s).func, "attr", "") and _is_holder_list(s.value) for s in star)
         ctx.ob("R05.1", "all-holders-assembled-in-order", assembled, ev.loc(), "every statement holder, in order, is passed to SQLLineageHolder.of(...)")
     ctx.ob("R05.1", "one-holder-per-statement", ok_append, loc(ev.mod, L),
            "exactly one holder (the result of analyze) is appended on every non-raising path of an iteration, so holders and statements stay index-aligned")
